@@ -25,6 +25,8 @@ func (s Sort) String() string {
 		return "Bool"
 	case SInt:
 		return "Int"
+	case SFloat:
+		return "(_ FloatingPoint 11 53)"
 	}
 	return "Real"
 }
@@ -39,8 +41,10 @@ type Term struct {
 	i    int64    // iconst, bconst(0/1)
 }
 
-func (t *Term) isConst() bool { return t.op == "iconst" || t.op == "rconst" || t.op == "bconst" }
-func (t *Term) isInf() bool   { return t.op == "pinf" || t.op == "ninf" }
+func (t *Term) isConst() bool {
+	return t.op == "iconst" || t.op == "rconst" || t.op == "bconst" || t.op == "fconst"
+}
+func (t *Term) isInf() bool { return t.op == "pinf" || t.op == "ninf" }
 
 type TB struct {
 	tab   map[string]*Term
@@ -50,6 +54,7 @@ type TB struct {
 	PInf  *Term
 	NInf  *Term
 	ufs   map[string]int // uf name -> arity
+	fp    bool           // bit-precise float64 layer: float-valued leaves are created with sort SFloat (termfp.go)
 }
 
 func NewTB() *TB {
@@ -90,6 +95,9 @@ func (b *TB) RatI(n, d int64) *Term { return b.Rat(big.NewRat(n, d)) }
 
 // Float converts a float64 literal to the shortest decimal that round-trips.
 func (b *TB) Float(f float64) *Term {
+	if b.fp {
+		return b.FConst(f)
+	}
 	if f > 1.7e308 {
 		return b.PInf
 	}
@@ -105,6 +113,9 @@ func (b *TB) Float(f float64) *Term {
 }
 
 func (b *TB) Var(name string, s Sort) *Term {
+	if s == SReal && b.fp {
+		s = SFloat
+	}
 	return b.mk(&Term{op: "var", sort: s, name: name}, "v"+name+":"+s.String())
 }
 
@@ -119,6 +130,13 @@ func (b *TB) app(op string, s Sort, args ...*Term) *Term {
 }
 
 func (b *TB) UF(name string, args ...*Term) *Term {
+	if isF(args...) {
+		fa := make([]*Term, len(args))
+		for i, a := range args {
+			fa[i] = b.toF(a)
+		}
+		return b.app("fuf:"+name, SFloat, fa...)
+	}
 	b.ufs[name] = len(args)
 	var sb strings.Builder
 	sb.WriteString("uf:")
@@ -224,6 +242,9 @@ func (b *TB) ILe(x, y *Term) *Term {
 /* ---------- generic ---------- */
 
 func (b *TB) Eq(x, y *Term) *Term {
+	if isF(x, y) {
+		return b.fcmp("feq", x, y)
+	}
 	if x == y {
 		return b.True
 	}
@@ -359,6 +380,9 @@ func (b *TB) Ite(c, x, y *Term) *Term {
 	if x == y {
 		return x
 	}
+	if isF(x, y) {
+		x, y = b.toF(x), b.toF(y)
+	}
 	if x.sort == SBool {
 		if x == b.True && y == b.False {
 			return c
@@ -394,6 +418,9 @@ func (b *TB) splitCoef(t *Term) (*big.Rat, *Term) {
 
 // RAdd builds a flattened, sorted sum with like terms merged (no distribution over products).
 func (b *TB) RAdd(x, y *Term) *Term {
+	if isF(x, y) {
+		return b.fbin("fadd", x, y)
+	}
 	if x.isInf() || y.isInf() {
 		return b.app("radd", SReal, x, y)
 	}
@@ -446,6 +473,9 @@ func (b *TB) RAdd(x, y *Term) *Term {
 }
 
 func (b *TB) RSub(x, y *Term) *Term {
+	if isF(x, y) {
+		return b.fbin("fsub", x, y)
+	}
 	if x == y {
 		return b.Rat(ratZero)
 	}
@@ -453,6 +483,9 @@ func (b *TB) RSub(x, y *Term) *Term {
 }
 
 func (b *TB) RNeg(x *Term) *Term {
+	if isF(x) {
+		return b.fneg(x)
+	}
 	if x.op == "rconst" {
 		return b.Rat(new(big.Rat).Neg(x.rat))
 	}
@@ -461,6 +494,9 @@ func (b *TB) RNeg(x *Term) *Term {
 
 // RMul builds a flattened, sorted product with the constant coefficient first.
 func (b *TB) RMul(x, y *Term) *Term {
+	if isF(x, y) {
+		return b.fbin("fmul", x, y)
+	}
 	if x.isInf() || y.isInf() {
 		return b.app("rmul", SReal, x, y)
 	}
@@ -546,6 +582,9 @@ func (b *TB) cancelInverses(fs []*Term) []*Term {
 
 // RInv is the reciprocal; printed as (/ 1.0 y).  Definedness (y != 0) is tracked by the caller.
 func (b *TB) RInv(y *Term) *Term {
+	if isF(y) {
+		return b.fbin("fdiv", b.FConst(1), y)
+	}
 	switch y.op {
 	case "rconst":
 		if y.rat.Sign() != 0 {
@@ -565,10 +604,16 @@ func (b *TB) RInv(y *Term) *Term {
 
 // RDiv value only; definedness (y != 0) is tracked by the caller.
 func (b *TB) RDiv(x, y *Term) *Term {
+	if isF(x, y) {
+		return b.fbin("fdiv", x, y)
+	}
 	return b.RMul(x, b.RInv(y))
 }
 
 func (b *TB) RLt(x, y *Term) *Term {
+	if isF(x, y) {
+		return b.fcmp("flt", x, y)
+	}
 	if x.op == "rconst" && y.op == "rconst" {
 		return b.Bool(x.rat.Cmp(y.rat) < 0)
 	}
@@ -589,6 +634,9 @@ func (b *TB) RLt(x, y *Term) *Term {
 }
 
 func (b *TB) RLe(x, y *Term) *Term {
+	if isF(x, y) {
+		return b.fcmp("fle", x, y)
+	}
 	if x.op == "rconst" && y.op == "rconst" {
 		return b.Bool(x.rat.Cmp(y.rat) <= 0)
 	}
@@ -605,6 +653,9 @@ func (b *TB) RLe(x, y *Term) *Term {
 }
 
 func (b *TB) ToReal(x *Term) *Term {
+	if b.fp {
+		return b.I2F(x)
+	}
 	if x.op == "iconst" {
 		return b.RatI(x.i, 1)
 	}
@@ -613,6 +664,9 @@ func (b *TB) ToReal(x *Term) *Term {
 
 // ToIntTrunc: Go's float->int conversion truncates toward zero.
 func (b *TB) ToIntTrunc(x *Term) *Term {
+	if isF(x) {
+		return b.F2I(x)
+	}
 	if x.op == "rconst" {
 		q := new(big.Int).Quo(x.rat.Num(), x.rat.Denom()) // truncated
 		return b.Int(q.Int64())
@@ -695,6 +749,8 @@ func leafSMT(t *Term, bv bool) string {
 		return intSMT(t.i, bv)
 	case "rconst":
 		return ratSMT(t.rat)
+	case "fconst":
+		return fconstSMT(t)
 	}
 	return ""
 }
@@ -714,6 +770,10 @@ func bodySMT(t *Term, bv bool) string {
 	sb.WriteByte('(')
 	if t.op == "uf" {
 		sb.WriteString("uf_" + t.name)
+	} else if strings.HasPrefix(t.op, "fuf:") {
+		sb.WriteString("fuf_" + t.op[4:])
+	} else if o, ok := opFP[t.op]; ok {
+		sb.WriteString(o)
 	} else {
 		op, ok := opSMT[t.op]
 		if bv {
